@@ -242,3 +242,9 @@ uint64_t vh_trace_call(void* fn, uint64_t a0, uint64_t a1, uint64_t a2, uint64_t
 
 /* address of a byte inside this shared object (to find the image bounds from /proc/self/maps) */
 void* vh_self_addr(void) { return (void*)&vh_self_addr; }
+
+#ifdef VERIF_COV
+/* development aid: flush gcov counters (forked workers leave through _exit) */
+extern void __gcov_dump(void);
+void vh_gcov_dump(void) { __gcov_dump(); }
+#endif
